@@ -742,7 +742,31 @@ Qed.
 (* ------------------------------------------------------------------ *)
 (* the compiler, one level *)
 
-Lemma compile_infix_eq : forall f op l r c,
+(* `a.b`: the left operand is compiled, the right one only names the member *)
+Lemma compile_dot_eq : forall f l r c,
+  compile_expr (S f) (EInfix TPeriod l r) c =
+  cbind (compile_expr f l c) (fun _ c1 =>
+  match estr 64 r with
+  | None => CNeed
+  | Some name => COk tt (emit0 OpIndex (emit_const (VStr name) c1))
+  end).
+Proof. reflexivity. Qed.
+
+(* inversion of a successful compilation of `l.r`.  (Proof hygiene: `estr 64 r` is named before any
+   step that the kernel re-checks by conversion; otherwise the fuel literal gets unrolled at Qed.) *)
+Lemma compile_dot_inv : forall f l r c c',
+  compile_expr (S f) (EInfix TPeriod l r) c = COk tt c' ->
+  exists c1 name, compile_expr f l c = COk tt c1 /\ estr 64 r = Some name /\
+                  c' = emit0 OpIndex (emit_const (VStr name) c1).
+Proof.
+  intros f l r c c' H. rewrite compile_dot_eq in H.
+  destruct (estr 64 r) as [name|].
+  - destruct (compile_expr f l c) as [[] c1| | |]; try discriminate. cbn [cbind] in H.
+    injection H as <-. exists c1, name. repeat split.
+  - destruct (compile_expr f l c) as [[] c1| | |]; discriminate.
+Qed.
+
+Lemma compile_infix_eq : forall f op l r c, op <> TPeriod ->
   compile_expr (S f) (EInfix op l r) c =
   cbind (compile_expr f l c) (fun _ c1 =>
   cbind (compile_expr f r c1) (fun _ c2 =>
@@ -756,7 +780,19 @@ Lemma compile_infix_eq : forall f op l r c,
         end
       else COk tt (emit0 o c2)
   end)).
-Proof. reflexivity. Qed.
+Proof. intros f op l r c Hne. destruct op; try reflexivity. exfalso; apply Hne; reflexivity. Qed.
+
+(* the code of `l.r` is the code of `l[name]` where name is the printed form of r *)
+Lemma cc_dot : forall o l r name c c1,
+  cstate_ok c -> cc_res o l c c1 -> estr 64 r = Some name ->
+  cc_res o (EInfix TPeriod l r) c (emit0 OpIndex (emit_const (VStr name) c1)).
+Proof.
+  intros o l r name c c1 Hc R1 Hn.
+  apply (cc_binary o _ l (EStr name) OpIndex (spec_index o) c c1 _ Hc R1).
+  - apply cc_const; [exact (proj1 R1)|reflexivity].
+  - intros en obj. cbn [seval]. rewrite Hn. destruct (seval o l en obj); reflexivity.
+  - apply bin_step_index.
+Qed.
 
 Lemma compile_prefix_eq : forall f op r c,
   compile_expr (S f) (EPrefix op r) c =
@@ -784,9 +820,6 @@ Proof. reflexivity. Qed.
 
 Ltac infix_case o e1 e2 c c1 c2 Hc R1 R2 :=
   match goal with
-  | |- cc_res _ (EInfix TPeriod _ _) _ _ =>
-      apply (cc_binary o _ e1 e2 OpIndex (spec_index o) c c1 c2 Hc R1 R2);
-      [intros; reflexivity | apply bin_step_index]
   | |- cc_res _ (EInfix TDotDot _ _) _ _ =>
       apply (cc_binary o _ e1 e2 OpRange vm_range c c1 c2 Hc R1 R2);
       [intros; reflexivity | apply bin_step_range]
@@ -838,14 +871,19 @@ Proof.
         -- apply (cc_unary o _ e OpSquareRoot vm_sqrt c c1 Hc R1);
              [intros; reflexivity | apply un_step_sqrt].
       * (* EInfix *)
-        rewrite compile_infix_eq in H.
         apply andb_true_iff in Hp. destruct Hp as [Hp Hp2].
         apply andb_true_iff in Hp. destruct Hp as [Hop Hp1].
+        destruct (tokty_eq_dec op TPeriod) as [->|Hne].
+        { (* `.`: the right operand is not compiled (pure_expr e2 is not needed here) *)
+          destruct (compile_dot_inv _ _ _ _ _ H) as (c1 & name & E1 & En & ->).
+          apply cc_dot; [exact Hc|exact (IHe e1 c c1 Hp1 Hc E1)|exact En]. }
+        rewrite compile_infix_eq in H by exact Hne.
         destruct (compile_expr f e1 c) as [[] c1| | |] eqn:E1; try discriminate. cbn [cbind] in H.
         destruct (compile_expr f e2 c1) as [[] c2| | |] eqn:E2; try discriminate. cbn [cbind] in H.
         pose proof (IHe e1 c c1 Hp1 Hc E1) as R1.
         pose proof (IHe e2 c1 c2 Hp2 (proj1 R1) E2) as R2.
-        destruct op; try discriminate; cbn [infix_opcode is_mutator] in H; injection H as <-;
+        destruct op; try discriminate; try (exfalso; apply Hne; reflexivity);
+          cbn [infix_opcode is_mutator] in H; injection H as <-;
           infix_case o e1 e2 c c1 c2 Hc R1 R2.
       * (* EArray *)
         rewrite compile_array_eq in H. apply andb_true_iff in Hp. destruct Hp as [Hn Hall].
